@@ -7,7 +7,7 @@ PROP = dict(
     rule=("the engine is built with the Go race detector and re-executes itself so that the detector's reports of the whole run are collected (one finding per distinct pair of racing frames); per case: one node with "
           "1-3 shared account documents (a positive counter and a register each) and an item collection; 3-8 goroutines each run 6-15 generated calls (counter increments and register writes on the shared accounts, creates and "
           "deletes of own items, multi-collection queries, creation and drop of an index by one of them) while 3-10 commits made on a second node (increments of the same accounts, creates) are delivered through the merge "
-          "event path; then 2-7 goroutines create items through ONE transaction obtained with NewConcurrentTxn, which is then committed. Every call's outcome (ok / conflict / error) is recorded. Final state: every counter "
+          "event path; then 2-7 goroutines create items through ONE transaction obtained with NewConcurrentTxn, which is then committed; then the same number of goroutines create (and partly delete) documents of an indexed collection through ONE collection handle, and every remaining document must be returned both by a scan and by the index lookup for its own value. Every call's outcome (ok / conflict / error) is recorded. Final state: every counter "
           "equals the sum of acknowledged + merged increments, every register holds the value of an acknowledged write, the item set is exactly acknowledged creates + merged creates - acknowledged deletes, no panic; the "
           "acknowledged history and the observed final state are replayed by the model; a case is one concurrent run (schedule chosen by the Go scheduler); distinct = distinct plans"),
     assumptions=[
